@@ -119,11 +119,27 @@ pub fn c17(ctx: &mut Ctx) {
     let _ = warm;
     let mut iso: Vec<Isolated> = Vec::with_capacity(pool.len());
     for (r, d) in pool.iter() {
+        // the measured call comes first: it is the pair's first evaluation in this process
+        let (first_allocs, first_live) = measure_allocs(r, d);
         let obs = ctx.observe(r, d);
         // H5: the log trace and value agree with the model's prediction
         let (mo, tr) = refsem::model(r, d);
         ctx.judge("c17.effects", r, d, &obs, &mo, &tr);
-        let allocs = measure_allocs(r, d).0;
+        // heap conservation from the very first occurrence of a pair: a buffer that is allocated on
+        // first use and then kept (and reused) is invisible to every later measurement
+        let (allocs, live) = measure_allocs(r, d);
+        if alloc::enabled() && !matches!(obs.out, Outcome::Panic(_)) {
+            ctx.mon("c17.heap-conservation").observed += 1;
+            ctx.mon("c17.heap-conservation").judged += 1;
+            if first_live != 0 || live != 0 {
+                ctx.violation_x("c17.heap-conservation", &format!("retained-heap-first-use:{}", crate::ctx::top_op(r)), r, d, json!({"net_live_bytes": 0}), json!({"net_live_bytes_first_measured_call": first_live, "second": live}), "heap memory stayed allocated after the call returned and its result was dropped (state kept between calls)", json!({"phase": "isolated"}));
+            }
+            ctx.mon("c17.alloc-determinism").observed += 1;
+            ctx.mon("c17.alloc-determinism").judged += 1;
+            if first_allocs != allocs {
+                ctx.violation_x("c17.alloc-determinism", &format!("alloc-count-varies-first-use:{}", crate::ctx::top_op(r)), r, d, json!({"allocations_first_measured_call": first_allocs}), json!({"allocations_next_call": allocs}), "the same call allocates a different number of times on its second occurrence (hidden state: cache / memo / warm-up)", json!({"phase": "isolated"}));
+            }
+        }
         iso.push(Isolated { key: outcome_key(&obs.out), logs: obs.logs, allocs });
     }
     // log returns its operand unchanged
